@@ -5,6 +5,7 @@
 use std::collections::BTreeMap as StdMap;
 use std::collections::LinkedList as StdList;
 use verif_alloc::collections::btree_map::CAP;
+use verif_alloc::collections::linked_list::LCAP;
 use verif_alloc::collections::BTreeMap as ModMap;
 use verif_alloc::collections::LinkedList as ModList;
 
@@ -37,8 +38,10 @@ fn btreemap_and_linkedlist_agree_with_std() {
             let v = vec![(r.next() % 256) as u8; (r.next() % 3) as usize];
             match r.next() % 9 {
                 0 => {
-                    m.entry(k).or_default().push_back(v.clone());
-                    s.entry(k).or_default().push_back(v);
+                    if s.get(&k).map(|l| l.len()).unwrap_or(0) < LCAP {
+                        m.entry(k).or_default().push_back(v.clone());
+                        s.entry(k).or_default().push_back(v);
+                    }
                 }
                 1 => {
                     let mut l1 = ModList::new();
@@ -55,11 +58,13 @@ fn btreemap_and_linkedlist_agree_with_std() {
                     assert_eq!(a, b);
                 }
                 3 => {
-                    if let Some(l) = m.get_mut(&k) {
-                        l.push_back(v.clone());
-                    }
-                    if let Some(l) = s.get_mut(&k) {
-                        l.push_back(v);
+                    if s.get(&k).map(|l| l.len()).unwrap_or(LCAP) < LCAP {
+                        if let Some(l) = m.get_mut(&k) {
+                            l.push_back(v.clone());
+                        }
+                        if let Some(l) = s.get_mut(&k) {
+                            l.push_back(v);
+                        }
                     }
                 }
                 4 => {
@@ -88,8 +93,10 @@ fn btreemap_and_linkedlist_agree_with_std() {
                     same(&c, &s);
                 }
                 7 => {
-                    m.entry(k).and_modify(|l| l.push_back(vec![9])).or_insert_with(ModList::new);
-                    s.entry(k).and_modify(|l| l.push_back(vec![9])).or_insert_with(StdList::new);
+                    if s.get(&k).map(|l| l.len()).unwrap_or(0) < LCAP {
+                        m.entry(k).and_modify(|l| l.push_back(vec![9])).or_insert_with(ModList::new);
+                        s.entry(k).and_modify(|l| l.push_back(vec![9])).or_insert_with(StdList::new);
+                    }
                 }
                 _ => {
                     if r.next() % 16 == 0 {
